@@ -293,7 +293,12 @@ def check_C21(run):
     run.absorb("codec", res,
                "generated records (empty/zero/'|'/random fields, extreme 64-bit values) x {encode, decode in both RW modes, "
                "every single-bit flip, every truncation}; a case is distinct by its call text; all are non-trivial (each decodes a "
-               "different byte image)", len(distinct), samples)
+               "different byte image); two adjacent records of different buckets are also decoded through one data file and "
+               "rendered afterwards", len(distinct), samples)
+    check_hist_generic(run, [("sparse", "sparse", 60, 1200, RULE_HIST + "; profile sparse (HintBPTSparseIdxMode): after every "
+                              "successful Commit the bucket meta file written by the library is decoded with ReadBucketMeta and must "
+                              "give exactly the smallest and largest key written so far (the record the library writes decodes to the "
+                              "fields that were written)")])
 
 
 
@@ -385,15 +390,30 @@ def check_C03(run):
                               "expired keys inside the scanned prefixes, offset 0..5, limit -1..5, regexps"),
                              ("kvdeep", "kvdeep", 120, 2400, RULE_HIST + "; profile kvdeep (multi-level B+ tree)"),
                              ("scanbin", "scanbin", 150, 3000, RULE_HIST + "; profile scanbin: binary keys and prefixes ending in 0xFF / 0x00"),
+                             ("sparsepage", "sparsepage", 120, 2400, RULE_HIST + "; profile sparsepage: the scan profile in "
+                              "HintBPTSparseIdxMode (one bucket, keys spread over sealed segments with on-disk indexes), offsets 0..5, "
+                              "limits -1..5: the model is run with RAM semantics, so sparse pages must equal RAM pages and the spec"),
+                             ("scanmerge", "scanmerge", 120, 2400, RULE_HIST + "; profile scanmerge: RAM index modes, one bucket, "
+                              "deletes / re-puts / expiring puts with Merge in the same process lifetime (25% of the steps), then scans "
+                              "with offsets 0..5 and limits -1..5"),
                              ("pages", "pages", 40, 600, "paging sweep: for random contents over 7 keys x {live, deleted, expired, "
-                              "absent} every (prefix, offset 0..n+1, limit 1..n+1) PrefixScan and offset-0 PrefixSearchScan; the "
+                              "absent} — in every other case followed by a Merge in the same process lifetime and a transaction that "
+                              "puts deleted / expired / absent keys again and deletes live ones — "
+                              "every (prefix, offset 0..n+1, limit 1..n+1) PrefixScan and offset-0 PrefixSearchScan; the "
                               "harness also concatenates the pages offset=0,limit,2*limit.. and compares with the live keys")])
 
 
 def check_C04(run):
     check_hist_generic(run, [("frame", "frame", 300, 6000, RULE_HIST + "; profile frame: bucket names '', a, ab, abc, b and keys "
                               "bc, c, b, a, ab, abc (coinciding bucket+key concatenations), all four structures; the L0 "
-                              "specification is a map bucket -> structure, so any cross-bucket effect is a spec mismatch")])
+                              "specification is a map bucket -> structure, so any cross-bucket effect is a spec mismatch"),
+                             ("framedense", "framedense", 150, 3000, RULE_HIST + "; profile framedense: two buckets (a, ab), two keys, "
+                              "two members, mostly set calls incl. SMoveByTwoBuckets: the same key names hold a structure in both "
+                              "buckets, so a call that consults the wrong bucket finds something there"),
+                             ("sparsepfx", "sparsepfx", 60, 1200, RULE_HIST + "; profile sparsepfx: HintBPTSparseIdxMode, key/value buckets "
+                              "b and ba (one name a prefix of the other), keys chosen so that no bucket+key concatenation of one "
+                              "bucket equals one of the other, sealed segments with multi-level on-disk trees; the only read is Get "
+                              "(scans and GetAll across such buckets are known finding F18)")])
     check_hist_generic(run, [("framemerge", "framemerge", 150, 3000, RULE_HIST + "; profile framemerge: colliding bucket / key / member "
                               "names across buckets and across data structures (key/value, sets, sorted sets), with Merge after 30% "
                               "of the transactions and reopens: Merge must not let one bucket's records decide about another's "
@@ -414,7 +434,10 @@ def check_C06(run):
                               "the code is an oracle input checked for membership), SMove*, empty and repeated members"),
                              ("setamb", "setamb", 150, 3000, RULE_HIST + "; profile setamb: buckets s, sa, keys a, ab, b, members "
                               "'', b, bc, c, x, 1x: bucket / key / member byte strings that concatenate ambiguously"),
-                             ("dsset", "dsset", 300, 6000, "the exported ds/set type driven directly")])
+                             ("dsset", "dsset", 300, 6000, "the exported ds/set type driven directly"),
+                             ("faultset", "faultset", 60, 1200, "fault injection into the Commit of set transactions (the C12 protocol on "
+                              "the set profile): an I/O error at each mutation point; after Rollback and after reopen every set "
+                              "observation must equal the one before the transaction")])
     check_hist_generic(run, [("setraw", "setraw", 150, 3000, RULE_HIST + "; profile setraw: set transactions that remove a member and then "
                               "move / re-add it in the same transaction; impl = model must hold; a spec mismatch is attributed to known "
                               "finding F21 (C13) only when the failing call validates a set the transaction already modified")],
@@ -434,7 +457,12 @@ def check_C08(run):
                               "'#SPEC reopen-changed' + model + spec)"),
                              ("sparse", "sparse", 60, 2500, RULE_HIST + "; profile sparse: key/value data in HintBPTSparseIdxMode with keys of "
                               "different lengths, reopens with the observation battery (sealed segments are found again through the "
-                              "persisted root-index and bucket-meta records)")])
+                              "persisted root-index and bucket-meta records)"),
+                             ("crczero", "crczero", 80, 1600, RULE_HIST + "; profile crczero: half of the write transactions end with a "
+                              "key/value record whose value is forged so that the CRC-32 of the stored record is exactly 0 (sometimes 1), "
+                              "reopen after half of the transactions"),
+                             ("manyseg", "manyseg", 25, 500, RULE_HIST + "; profile manyseg: 45 transactions over segments of 150-200 "
+                              "bytes (more than ten and more than twenty data files, ids with one and two digits), reopened often")])
 
 
 def check_C12(run):
@@ -500,7 +528,11 @@ def check_C09(run):
     sparse_crash(run, "crashsparse")
     check_hist_generic(run, [("reopen", "reopen", 150, 3000, RULE_HIST + "; profile reopen (exact-fill entries, no-op operations, "
                               "reads of missing buckets; every Close/Open must succeed)"),
-                             ("abort", "abort", 100, 2000, RULE_HIST + "; profile abort (failed and rolled-back transactions before reopen)")])
+                             ("abort", "abort", 100, 2000, RULE_HIST + "; profile abort (failed and rolled-back transactions before reopen)"),
+                             ("sparse", "sparse", 80, 1600, RULE_HIST + "; profile sparse: HintBPTSparseIdxMode, one bucket per history drawn "
+                              "from names that also end in letters of '.meta', keys of different lengths (the bucket meta record grows "
+                              "and shrinks), Close/Open after 15% of the transactions: every Open must succeed"),
+                             ("manyseg", "manyseg", 15, 300, RULE_HIST + "; profile manyseg: more than ten data files, reopened often")])
     n = 150 if run.tier == "quick" else 3000
     hist_suite(run, "rawreopen", ["hist", "-n", n, "-x", "rawreopen"],
                RULE_HIST + "; profile rawreopen: transactions that pop / remove / trim structures they already modified (their records "
@@ -540,7 +572,14 @@ def check_C19(run):
                "{HintKeyValAndRAMIdxMode, HintKeyAndRAMIdxMode} x RWMode x StartFileLoadingMode x SyncEnable; result sequences "
                "(incl. full observations after every reopen) must be identical across combinations, and each run equals model and spec")
     check_hist_generic(run, [("reopen", "reopen", 300, 6000, RULE_HIST + "; profile reopen under random option combinations, with "
-                              "entries that fill a segment to its last byte followed at once by a reopen")])
+                              "entries that fill a segment to its last byte followed at once by a reopen"),
+                             ("sparse", "sparse", 80, 2500, RULE_HIST + "; profile sparse: HintBPTSparseIdxMode under random RWMode / "
+                              "StartFileLoadingMode / SyncEnable; the model is run with RAM semantics, so every key/value result of the "
+                              "sparse mode must equal the RAM-mode result; after every Commit the bucket meta file must decode to the "
+                              "range of the keys written"),
+                             ("sparse2", "sparse2", 40, 1500, RULE_HIST + "; profile sparse2: sparse mode, segments with multi-level "
+                              "on-disk index trees"),
+                             ("manyseg", "manyseg", 20, 400, RULE_HIST + "; profile manyseg: more than ten data files under random options")])
 
 
 def check_C20(run):
@@ -662,14 +701,25 @@ def check_C17(run):
     hist_suite(run, "concmerge", ["hist", "-n", n, "-x", "concmerge"], RULE_CONC + "; additionally one goroutine per database calls "
                "Merge three times while the transactions run (sets instead of lists: known finding F14)", binary=b,
                env={"GORACE": "halt_on_error=0 exitcode=0"})
+    n = 36 if run.tier == "quick" else 600
+    hist_suite(run, "backup", ["hist", "-n", n, "-x", "backup"], RULE_BACKUP + " (here for Merge against the read transaction that "
+               "Backup is: a Merge issued while the copy is under way must wait; a Backup issued while Merge removes old segments "
+               "must wait)")
+
+
+RULE_BACKUP = (RULE_HIST + "; then Backup into a new directory under six schedules: (0-2) a writer tries to commit while the copy is "
+               "parked on a FIFO that sorts first in the directory (mixed workload / after a successful Merge on the same handle / "
+               "more than ten segments): the write transaction must not commit while the copy is in progress, and the copy, opened "
+               "with the same options, must give the full observation taken just before Backup; (3) the same with a Merge issued "
+               "while the copy is parked: it must not run to completion; (4) Backup is called while a write transaction holds the "
+               "lock and that transaction's Commit rotates the segment: the copy must contain the transaction; (5) Backup is called "
+               "at the moment Merge removes its first old segment: the copy must be the merged directory (equal to the source "
+               "reopened)")
 
 
 def check_C18(run):
-    n = 40 if run.tier == "quick" else 800
-    hist_suite(run, "backup", ["hist", "-n", n, "-x", "backup"], RULE_HIST + "; then Backup into a new directory while a writer tries "
-               "to commit: the copy is parked on a FIFO that sorts first in the directory, the harness checks that the write "
-               "transaction cannot commit while the copy is in progress, releases the FIFO, opens the copy with the same options and "
-               "compares its full observation with the one taken just before Backup (every index mode x RWMode)")
+    n = 60 if run.tier == "quick" else 900
+    hist_suite(run, "backup", ["hist", "-n", n, "-x", "backup"], RULE_BACKUP)
 
 
 def check_C02(run):
@@ -678,7 +728,9 @@ def check_C02(run):
                               "on-disk index files), Put/PutWithTimestamp/Delete/TTL, reopens; reads Get/GetAll/RangeScan/PrefixScan "
                               "(large limit); the model is run with RAM-mode semantics, i.e. sparse results must equal RAM results"),
                              ("sparse2", "sparse2", 50, 800, RULE_HIST + "; profile sparse2: 30 keys, 45 small transactions, segments "
-                              "of 600-1500 bytes (on-disk key tree and transaction-id tree with inner nodes)")])
+                              "of 600-1500 bytes (on-disk key tree and transaction-id tree with inner nodes)"),
+                             ("sparsebig", "sparsebig", 60, 1200, RULE_HIST + "; profile sparsebig: transactions of 6-14 records over "
+                              "segments of 150-250 bytes (a transaction spans several segments; some segments hold no commit record)")])
 
 
 CHECKS = {
